@@ -814,6 +814,131 @@ Section FrameProofs.
   Proof. intros H. rewrite !run_seq_nth, H. reflexivity. Qed.
 End FrameProofs.
 
+(* ---------- the memo only removes repeated lookups ---------- *)
+Section Dedup.
+  Variable ctx_hash : value -> string.
+  Notation key_of := (key_of ctx_hash).
+
+  Definition memb (k : rkey) (l : list rkey) : bool := existsb (rkey_eqb k) l.
+  Lemma memb_in k l : memb k l = true <-> In k l.
+  Proof.
+    unfold memb. rewrite existsb_exists. split.
+    - intros [x [H1 H2]]. apply rkey_eqb_eq in H2. subst. exact H1.
+    - intros H. exists k. split; [exact H|apply rkey_eqb_refl].
+  Qed.
+
+  (* keep the first query of every key *)
+  Fixpoint dedup_keys (seen : list rkey) (l : list rel_query) : list rel_query :=
+    match l with
+    | [] => []
+    | q :: r => if memb (key_of q) seen then dedup_keys seen r else q :: dedup_keys (key_of q :: seen) r
+    end.
+
+  Lemma dedup_snoc : forall l seen q,
+    dedup_keys seen (l ++ [q]) =
+    (dedup_keys seen l ++ (if memb (key_of q) (seen ++ map key_of l) then [] else [q]))%list.
+  Proof.
+    induction l as [|x r IH]; intros seen q; simpl.
+    - rewrite app_nil_r. destruct (memb (key_of q) seen); reflexivity.
+    - destruct (memb (key_of x) seen) eqn:Ex.
+      + assert (E : memb (key_of q) (seen ++ map key_of r) = memb (key_of q) (seen ++ key_of x :: map key_of r)).
+        { apply eq_true_iff_eq. rewrite !memb_in, !in_app_iff. simpl. apply memb_in in Ex.
+          split; [tauto|]. intros [H|[H|H]]; [tauto| |tauto]. left. rewrite <- H. exact Ex. }
+        rewrite IH, E. reflexivity.
+      + assert (E : memb (key_of q) ((key_of x :: seen) ++ map key_of r) = memb (key_of q) (seen ++ key_of x :: map key_of r)).
+        { apply eq_true_iff_eq. rewrite !memb_in. rewrite <- app_comm_cons. simpl. rewrite !in_app_iff. simpl. tauto. }
+        rewrite IH, E. reflexivity.
+  Qed.
+
+  Theorem memo_log_is_dedup o oblig strict policy req resolved :
+    respects_key ctx_hash o ->
+    let m := decide_rel ctx_hash (Some o) oblig strict policy req resolved in
+    let d := guard_eval (list rel_query) (relh_direct (Some o)) oblig strict policy req resolved [] in
+    fst m = fst d /\ f_log (snd m) = dedup_keys [] (snd d).
+  Proof.
+    intros Hk. cbv zeta. unfold RelCond.decide_rel.
+    pose (Rl := fun (s1 : frame) (s2 : list rel_query) =>
+                  frame_ok ctx_hash o s1 /\ memo_sound ctx_hash o s1 /\ f_log s1 = dedup_keys [] s2 /\
+                  (forall k, In k (map key_of s2) <-> In k (map key_of (f_log s1)))).
+    destruct (guard_eval_sim frame (list rel_query) (relh_frame ctx_hash true (Some o)) (relh_direct (Some o)) Rl) with
+      (oblig := oblig) (strict := strict) (policy := policy) (req := req) (resolved := resolved)
+      (s1 := frame0) (s2 := @nil rel_query) as [H1 [_ [_ [H2 _]]]].
+    - intros q s1 s2 [Hok [Hm [Hl Hks]]].
+      destruct (memo_pure_lift ctx_hash o Hk q s1 tt Hm) as [Hans Hm'].
+      pose proof (frame_ok_step ctx_hash o q s1 Hok) as Hok'.
+      destruct (memo_get (key_of q) (f_memo s1)) as [b|] eqn:E.
+      + rewrite (relh_hit ctx_hash _ _ _ _ E) in *. simpl in *. split; [exact Hans|].
+        assert (Hin : In (key_of q) (map key_of s2)).
+        { apply Hks. apply (fo_keys _ _ _ Hok). apply in_map_iff. exists (key_of q, b). split; [reflexivity|].
+          apply memo_get_in. exact E. }
+        split; [exact Hok'|]. split; [exact Hm'|]. split.
+        * rewrite dedup_snoc. simpl. apply memb_in in Hin. rewrite Hin, app_nil_r. exact Hl.
+        * intros k. simpl. rewrite map_app, in_app_iff. simpl. rewrite <- Hks. split; [|tauto].
+          intros [H|[H|[]]]; [exact H|]. subst. exact Hin.
+      + rewrite (relh_miss ctx_hash _ _ _ E) in *. simpl in *. split; [exact Hans|].
+        assert (Hnot : ~ In (key_of q) (map key_of s2)).
+        { rewrite Hks, <- (fo_keys _ _ _ Hok). apply memo_get_none. exact E. }
+        split; [exact Hok'|]. split; [exact Hm'|]. split.
+        * rewrite dedup_snoc. simpl. destruct (memb (key_of q) (map key_of s2)) eqn:Em.
+          { exfalso. apply Hnot. apply memb_in. exact Em. }
+          rewrite Hl. reflexivity.
+        * intros k. simpl. rewrite !map_app, !in_app_iff. simpl. rewrite Hks. tauto.
+    - split; [apply frame_ok_0|]. split; [intros k b []|]. split; [reflexivity|simpl; tauto].
+    - split; [exact H1|exact H2].
+  Qed.
+End Dedup.
+
+(* ---------- frames of concurrently running evaluations do not see each other ---------- *)
+(* an evaluation whose handler works on its own component of a joint state: what contextvars give *)
+Definition lift_left {S1 S2 : Type} (h : rel_query -> S1 -> bool * S1) (q : rel_query) (st : S1 * S2) : bool * (S1 * S2) :=
+  let '(b, s1') := h q (fst st) in (b, (s1', snd st)).
+Definition lift_right {S1 S2 : Type} (h : rel_query -> S2 -> bool * S2) (q : rel_query) (st : S1 * S2) : bool * (S1 * S2) :=
+  let '(b, s2') := h q (snd st) in (b, (fst st, s2')).
+
+Theorem frames_independent_left (S1 S2 : Type) (h : rel_query -> S1 -> bool * S1) oblig strict policy req resolved s1 (s2 : S2) :
+  guard_eval (S1 * S2) (lift_left h) oblig strict policy req resolved (s1, s2) =
+  (fst (guard_eval S1 h oblig strict policy req resolved s1),
+   (snd (guard_eval S1 h oblig strict policy req resolved s1), s2)).
+Proof.
+  destruct (guard_eval_sim (S1 * S2) S1 (lift_left h) h (fun st s => fst st = s /\ snd st = s2)) with
+    (oblig := oblig) (strict := strict) (policy := policy) (req := req) (resolved := resolved)
+    (s1 := (s1, s2)) (s2 := s1) as [H1 [H2 H3]].
+  - intros q st s [<- Hs]. unfold lift_left. destruct (h q (fst st)) as [b t]. simpl. auto.
+  - split; reflexivity.
+  - apply pair_eq; [exact H1|]. apply pair_eq; assumption.
+Qed.
+Theorem frames_independent_right (S1 S2 : Type) (h : rel_query -> S2 -> bool * S2) oblig strict policy req resolved (s1 : S1) s2 :
+  guard_eval (S1 * S2) (lift_right h) oblig strict policy req resolved (s1, s2) =
+  (fst (guard_eval S2 h oblig strict policy req resolved s2),
+   (s1, snd (guard_eval S2 h oblig strict policy req resolved s2))).
+Proof.
+  destruct (guard_eval_sim (S1 * S2) S2 (lift_right h) h (fun st s => snd st = s /\ fst st = s1)) with
+    (oblig := oblig) (strict := strict) (policy := policy) (req := req) (resolved := resolved)
+    (s1 := (s1, s2)) (s2 := s2) as [H1 [H2 H3]].
+  - intros q st s [<- Hs]. unfold lift_right. destruct (h q (snd st)) as [b t]. simpl. auto.
+  - split; reflexivity.
+  - apply pair_eq; [exact H1|]. apply pair_eq; simpl; [exact H3|exact H2].
+Qed.
+
+(* two evaluations on two engines (own checker, own policy, own request), each on its own frame of
+   a joint state, in either order: each gets the decision and the call log it gets alone *)
+Theorem two_engines_isolated ctx_hash chkA chkB obA obB strA strB polA polB reqA reqB resA resB :
+  let hA := relh_frame ctx_hash true chkA in
+  let hB := relh_frame ctx_hash true chkB in
+  let a := decide_rel ctx_hash chkA obA strA polA reqA resA in
+  let b := decide_rel ctx_hash chkB obB strB polB reqB resB in
+  (let '(ra, st) := guard_eval (frame * frame) (lift_left hA) obA strA polA reqA resA (frame0, frame0) in
+   let '(rb, st') := guard_eval (frame * frame) (lift_right hB) obB strB polB reqB resB st in
+   (ra, rb, st')) = (fst a, fst b, (snd a, snd b)) /\
+  (let '(rb, st) := guard_eval (frame * frame) (lift_right hB) obB strB polB reqB resB (frame0, frame0) in
+   let '(ra, st') := guard_eval (frame * frame) (lift_left hA) obA strA polA reqA resA st in
+   (ra, rb, st')) = (fst a, fst b, (snd a, snd b)).
+Proof.
+  cbv zeta. unfold RelCond.decide_rel. split.
+  - rewrite frames_independent_left, frames_independent_right. reflexivity.
+  - rewrite frames_independent_right, frames_independent_left. reflexivity.
+Qed.
+
 (* ---------- the decision depends on the oracle only through the canonical queries ---------- *)
 Theorem pure_depends_on_canonical rel1 rel2 oblig strict policy req resolved :
   (forall env rule e q, build_env strict req resolved = Some env -> In rule (all_rules policy) ->
